@@ -1,7 +1,21 @@
 (* Pinned statements for C11: a changed statement or a new axiom fails the check. *)
-From SwimV Require Import Model.Envelope Proofs.EnvelopeProofs Props.C11.
+From SwimV Require Import Model.Envelope Proofs.EnvelopeProofs Model.SocketDispatch Proofs.SocketDispatchProofs Props.C11.
 Open Scope N_scope.
 Check (C11_envelope_roundtrip) : (forall k node lane body, peel_envelope (enc_envelope k node lane body) = Some (k, node, lane, skip_blanks body)).
 Print Assumptions C11_envelope_roundtrip.
 Check (C11_slot_value_is_printed_name) : (forall t c rest, is_identifier_char c = false -> value_span (write_string_literal t ++ c :: rest) = Some (write_string_literal t, c :: rest)).
 Print Assumptions C11_slot_value_is_printed_name.
+Check (C11_tables_refine_registrations) : (forall plane ops, srun plane sock0 ops = spec_run plane ospec0 ops).
+Print Assumptions C11_tables_refine_registrations.
+Check (C11_response_reaches_exactly_the_owed) : (forall plane ops p, let s := sexec plane sock0 ops in s_stopped s = false -> snd (sstep plane s (OInResp p)) = map (fun d => DResp d p) (owed s (p_node p) (p_lane p))).
+Print Assumptions C11_response_reaches_exactly_the_owed.
+Check (C11_response_is_not_misdelivered) : (forall plane ops p d, let s := sexec plane sock0 ops in In (DResp d p) (snd (sstep plane s (OInResp p))) -> In (d, (p_node p, p_lane p)) (s_addr s) /\ memN d (s_gone s) = false).
+Print Assumptions C11_response_is_not_misdelivered.
+Check (C11_request_goes_to_its_node) : (forall plane s q, s_stopped s = false -> snd (sstep plane s (OInReq q)) = if memN (q_node q) plane then [DReq (q_node q) q] else match q_kind q with QCommand => [] | _ => [DFrame (FNotFound (q_node q) (q_lane q))] end).
+Print Assumptions C11_request_goes_to_its_node.
+Check (C11_invalid_frame_is_never_delivered) : (forall plane s o, s_stopped s = true -> snd (sstep plane s o) = []).
+Print Assumptions C11_invalid_frame_is_never_delivered.
+Check (C11_outgoing_messages_leave_unchanged) : (forall plane s d q, s_stopped s = false -> lookup d (s_addr s) <> None -> memN d (s_gone s) = false -> snd (sstep plane s (ODlSend d q)) = [DFrame (FReq q)]).
+Print Assumptions C11_outgoing_messages_leave_unchanged.
+Check (C11_cleanup_witness) : (let p1 := {| p_kind := PEvent; p_node := 1; p_lane := 0; p_body := Some 901 |} in let p2 := {| p_kind := PEvent; p_node := 1; p_lane := 1; p_body := Some 902 |} in srun [] sock0 [OAttach 1 1 0; OAttach 2 1 1; ODrop 1; OInResp p1; OInResp p2] = [[]; []; []; []; [DResp 2 p2]]).
+Print Assumptions C11_cleanup_witness.
